@@ -8,7 +8,9 @@ import json, os, re, shutil, subprocess, sys, tempfile, time
 
 prop, var = sys.argv[1], sys.argv[2]
 extra = sys.argv[3:]
-src = f"/tmp/seed/{prop}/out"
+BASE = os.environ.get("SEED_BASE", "/tmp/seed")   # round 2: SEED_BASE=/tmp/seed2 SEED_TAG=2
+TAG = os.environ.get("SEED_TAG", "")
+src = f"{BASE}/{prop}/out"
 patch, demo, metatxt = f"{src}/{var}.diff", f"{src}/{var}_demo.py", f"{src}/{var}_meta.txt"
 for f in (patch, demo):
     if not os.path.exists(f):
@@ -46,10 +48,10 @@ try:
         kinds = sorted(set(re.findall(r"kind=(\S+)", p.stdout)))
         results[c] = {"verdict": {0: "survived", 1: "killed", 2: "inconclusive"}.get(p.returncode, "?"), "wall_s": round(time.monotonic() - t0, 1), "kinds": kinds[:5]}
         print(c, results[c])
-    out = f"/verif/seeded/{prop}_{var}"
+    out = f"/verif/seeded/{prop}_{TAG}{var}"
     os.makedirs(out, exist_ok=True)
     shutil.copy(patch, out + "/patch.diff"); shutil.copy(demo, out + "/demo.py")
-    meta = {"property": prop, "variant": var, "source": "independent sub-agent given only the property text and a scratch worktree",
+    meta = {"property": prop, "variant": TAG + var, "source": "independent sub-agent given only the property text and a scratch worktree",
             "description": open(metatxt).read() if os.path.exists(metatxt) else "", "confirmed_by_me": ran,
             "checks": [prop] + extra, "check_results_at_ingest": results}
     json.dump(meta, open(out + "/meta.json", "w"), indent=1)
